@@ -26,6 +26,8 @@ type RunResult struct {
 	PanicVal interface{}
 	Polls    int
 	Engine   *ScriptedEngine
+	// Partial is the working state when the run failed (slots may have been processed, sync committees rotated)
+	Partial common.BeaconState
 }
 
 func (r *RunResult) Verdict() string {
@@ -67,12 +69,16 @@ func RunTransition(sp *common.Spec, pre common.BeaconState, epc *common.EpochsCo
 	}
 	res.Engine = eng
 	ctx := NewPollCtx(failFrom)
+	var partial *beacon.StandardUpgradeableBeaconState
 	defer func() {
 		res.Polls = ctx.Polls
 		if r := recover(); r != nil {
 			res.Panicked = true
 			res.PanicVal = r
 			res.Post = nil
+			if partial != nil {
+				res.Partial = partial.BeaconState
+			}
 		}
 	}()
 	if epc == nil {
@@ -87,10 +93,12 @@ func RunTransition(sp *common.Spec, pre common.BeaconState, epc *common.EpochsCo
 	}
 	res.Epc = epc
 	ust := &beacon.StandardUpgradeableBeaconState{BeaconState: st}
+	partial = ust
 	env := EnvelopeFor(spx, sb, bf, pre)
 	err := common.StateTransition(ctx, spx, epc, ust, env, validate)
 	if err != nil {
 		res.Err = err
+		res.Partial = ust.BeaconState
 		return
 	}
 	res.Post = ust.BeaconState
